@@ -48,9 +48,9 @@ def peek_like(name, nth):
                 &&& final(self).diagnostics == old(self).diagnostics
                 &&& final(self).stuck_reported == old(self).stuck_reported
             }}),""",
-              ghost=[("self.diagnostics.push(diagnostic);", "before",
+              ghost=[("self.diagnostics.push(", "line-before",
                       "proof { if self.input.cursor < self.input.tokens.len() { assert(self.input.tokens@[self.input.cursor as int].range == range->0); } }"),
-                     ("self.fuel = self.fuel - 1;", "before", "proof { lemma_skip_trivia_bounds(self.input.tokens@, self.input.cursor as int); }")])
+                     ("@entry", "", "proof { lemma_skip_trivia_bounds(self.input.tokens@, self.input.cursor as int); }")])
 
 EV_PUSH = "final(self).events@ == old(self).events@.push({e})"
 KEEP = "final(self).input == old(self).input && final(self).fuel == old(self).fuel && final(self).stuck_reported == old(self).stuck_reported && final(self).diagnostics == old(self).diagnostics"
@@ -65,7 +65,7 @@ PCORE_FNS = [
             final(self).input.cursor == skip_trivia(old(self).input.tokens@, old(self).input.cursor as int),
             r == (final(self).input.cursor == final(self).input.tokens.len()),
             final(self).diagnostics == old(self).diagnostics, final(self).stuck_reported == old(self).stuck_reported,""",
-       ghost=[("self.input.eof()", "before", "proof { lemma_skip_trivia_bounds(self.input.tokens@, self.input.cursor as int); }")]),
+       ghost=[("@entry", "", "proof { lemma_skip_trivia_bounds(self.input.tokens@, self.input.cursor as int); }")]),
     Fn(file=P, name="at", container="Parser", as_method_of=PI, ret="r",
        contract=f"""requires old(self).wf(),
         ensures final(self).wf(), {FRAME}, final(self).events == old(self).events,
@@ -84,7 +84,7 @@ PCORE_FNS = [
             {EV_PUSH.format(e="Event::Open { kind: MySyntaxKind::TombStone, forward_parent: None }")},
             r.index == old(self).events.len(), marker_ok(final(self).events@, r.index),
             events_extend(old(self).events@, final(self).events@),""",
-       ghost=[("MarkerOpened::new(pos)", "before", "proof { lemma_count_adv_push(old(self).events@, Event::Open { kind: MySyntaxKind::TombStone, forward_parent: None }); assert forall|i: int| 0 <= i < self.events@.len() implies #[trigger] fp_ok(self.events@, i) by { if i < old(self).events@.len() { assert(fp_ok(old(self).events@, i)); } } }")]),
+       ghost=[("MarkerOpened::new(", "line-before", "proof { lemma_count_adv_push(old(self).events@, Event::Open { kind: MySyntaxKind::TombStone, forward_parent: None }); assert forall|i: int| 0 <= i < self.events@.len() implies #[trigger] fp_ok(self.events@, i) by { if i < old(self).events@.len() { assert(fp_ok(old(self).events@, i)); } } }")]),
     Fn(file=P, name="close", container="Parser", as_method_of=PI, ret="r",
        obligation="close rewrites exactly the marker's Open event, appends Close; index in range (no panic)",
        contract=f"""requires old(self).wf(), marker_ok(old(self).events@, m.index),
@@ -92,7 +92,7 @@ PCORE_FNS = [
             final(self).events@ == old(self).events@.update(m.index as int, Event::Open {{ kind, forward_parent: None }}).push(Event::Close),
             r.index == m.index, marker_ok(final(self).events@, r.index),
             events_extend(old(self).events@, final(self).events@),""",
-       ghost=[("MarkerClosed { index: m.index }", "before", "proof { lemma_close_wf(old(self).events@, m.index as int, kind); }")]),
+       ghost=[("MarkerClosed { index", "line-before", "proof { lemma_close_wf(old(self).events@, m.index as int, kind); }")]),
     Fn(file=P, name="completed", container="MarkerOpened", ret="r",
        obligation="completed: the assert!(event is Open) and the index never fail given a live marker; same effect as close",
        contract="""requires old(p).wf(), marker_ok(old(p).events@, self.index),
@@ -101,7 +101,7 @@ PCORE_FNS = [
             final(p).events@ == old(p).events@.update(self.index as int, Event::Open { kind, forward_parent: None }).push(Event::Close),
             r.index == self.index, marker_ok(final(p).events@, r.index),
             events_extend(old(p).events@, final(p).events@),""",
-       ghost=[("MarkerClosed { index: self.index }", "before", "proof { lemma_close_wf(old(p).events@, self.index as int, kind); }")]),
+       ghost=[("MarkerClosed { index", "line-before", "proof { lemma_close_wf(old(p).events@, self.index as int, kind); }")]),
     Fn(file=P, name="precede", container="MarkerClosed", ret="r",
        obligation="precede: unreachable!() is unreachable given a live marker; sets a forward link to the fresh Open (>= 1, in range)",
        contract="""requires old(p).wf(), marker_ok(old(p).events@, self.index),
@@ -121,8 +121,8 @@ PCORE_FNS = [
             {EV_PUSH.format(e="Event::Advance")}, events_extend(old(self).events@, final(self).events@),
             ({{ let c = skip_trivia(old(self).input.tokens@, old(self).input.cursor as int);
                final(self).input.cursor == if c < old(self).input.tokens.len() {{ c + 1 }} else {{ c }} }}),""",
-       ghost=[("self.input.skip();", "before", "proof { lemma_skip_trivia_bounds(self.input.tokens@, self.input.cursor as int); let c = skip_trivia(self.input.tokens@, self.input.cursor as int); if c < self.input.tokens.len() { lemma_nontrivia_step(self.input.tokens@, c); } }"),
-              ("self.events.push(Event::Advance);", "after", "proof { lemma_count_adv_push(old(self).events@, Event::Advance); assert forall|i: int| 0 <= i < self.events@.len() implies #[trigger] fp_ok(self.events@, i) by { if i < old(self).events@.len() { assert(fp_ok(old(self).events@, i)); } } }")]),
+       ghost=[("@entry", "", "proof { lemma_skip_trivia_bounds(self.input.tokens@, self.input.cursor as int); let c = skip_trivia(self.input.tokens@, self.input.cursor as int); if c < self.input.tokens.len() { lemma_nontrivia_step(self.input.tokens@, c); } }"),
+              ("self.events.push(Event::Advance)", "line-after", "proof { lemma_count_adv_push(old(self).events@, Event::Advance); assert forall|i: int| 0 <= i < self.events@.len() implies #[trigger] fp_ok(self.events@, i) by { if i < old(self).events@.len() { assert(fp_ok(old(self).events@, i)); } } }")]),
     Fn(file=P, name="eat", container="Parser", as_method_of=PI, ret="r",
        contract=f"""requires old(self).wf(),
         ensures final(self).wf(), {FRAME}, events_extend(old(self).events@, final(self).events@),
@@ -134,7 +134,7 @@ PCORE_FNS = [
         ensures final(self).wf(), {FRAME}, {KEEP}, final(self).events@.len() == old(self).events@.len() + 1,
             final(self).events@.last() is Error, events_extend(old(self).events@, final(self).events@),
             forall|i: int| 0 <= i < old(self).events@.len() ==> final(self).events@[i] == old(self).events@[i],""",
-       ghost=[("self.events.push(Event::Error(rt_string(msg)));", "after", "proof { lemma_push_nonadv_wf(old(self).events@, self.events@.last()); }")]),
+       ghost=[("self.events.push(Event::Error(", "line-after", "proof { lemma_push_nonadv_wf(old(self).events@, self.events@.last()); }")]),
     Fn(file=P, name="advance_with_error", container="Parser", as_method_of=PI,
        rewrites=[("error.to_string()", "rt_string(error)")],
        obligation="advance_with_error wraps exactly one Advance in an ErrorTree node: Open, Error, Advance, Close",
@@ -146,8 +146,8 @@ PCORE_FNS = [
             final(self).events@[old(self).events@.len() as int + 1] is Error,
             final(self).events@[old(self).events@.len() as int + 2] is Advance,
             final(self).events@[old(self).events@.len() as int + 3] is Close,""",
-       ghost=[("let m = self.open();", "after", "let ghost e1 = self.events@;"),
-              ("self.events.push(Event::Error(rt_string(error)));", "after", "proof { lemma_push_nonadv_wf(e1, self.events@.last()); assert(self.events@ =~= e1.push(self.events@.last())); }")]),
+       ghost=[("let m = self.open()", "line-after", "let ghost e1 = self.events@;"),
+              ("self.events.push(Event::Error(", "line-after", "proof { lemma_push_nonadv_wf(e1, self.events@.last()); assert(self.events@ =~= e1.push(self.events@.last())); }")]),
     Fn(file=P, name="should_consume_on_expect_failure", ret="r"),
     Fn(file=P, name="expect", container="Parser", as_method_of=PI, rules=["T", CELL, "fmtmsg"],
        rewrites=[("self.advance_with_error(&err_msg);", "self.advance_with_error(err_msg.as_str());")],
@@ -156,7 +156,7 @@ PCORE_FNS = [
         ensures final(self).wf(), {FRAME}, events_extend(old(self).events@, final(self).events@),
             final(self).events@.len() > old(self).events@.len(),
             forall|i: int| 0 <= i < old(self).events@.len() ==> final(self).events@[i] == old(self).events@[i],""",
-       ghost=[("self.events.push(Event::Error(err_msg));", "after", "proof { lemma_push_nonadv_wf(old(self).events@, self.events@.last()); }")]),
+       ghost=[("self.events.push(Event::Error(", "line-after", "proof { lemma_push_nonadv_wf(old(self).events@, self.events@.last()); }")]),
 ]
 
 LEMMAS = Raw(text="""
